@@ -3,7 +3,10 @@
   * a decoder that walks the IDL JSON directly (the independent predicate of the layout checks);
   * a generator of random values + their bytes following an IDL type (drives the real parsers of shipped types);
   * the account-list flattening by field paths (the independent predicate of the account checks);
-  * a tokenizer of Rust `{:?}` output (leaf values, in order)."""
+  * a tokenizer of Rust `{:?}` output (leaf values, in order);
+  * the hand-written FULL layouts (`mf_*`) of the types that use `#[type_to_idl(skip)]`: values + bytes of the whole
+    runtime layout, which part of it the IDL is expected to describe, and that part as a normal form to compare with
+    `Idl.view` (none of the `mf_*` functions looks at an IDL)."""
 import re
 
 PRIMS = ["Bool", "U8", "I8", "U16", "I16", "U32", "I32", "F32", "U64", "I64", "F64", "U128", "I128", "String", "Pubkey",
@@ -261,6 +264,29 @@ class Idl:
             n = unle(s)
             return ("int", n - (1 << (8 * len(s))) if n >> (8 * len(s) - 1) else n)
         return ("float", bytes(s).hex())
+
+    # ---- a normal form of a described type (names + shapes, definitions inlined) -----------------------
+    def view(self, t, depth=0):
+        if depth > 64:
+            raise Unsupported("cyclic definitions")
+        k, v = kind(t)
+        if k == "FixedPoint":
+            return self.view(v["ty"], depth + 1)
+        if k == "Defined":
+            if v["source"] not in self.types:
+                raise Unsupported("undefined type " + v["source"])
+            return self.view(self.types[v["source"]]["type_def"], depth + 1)
+        if k in PRIMS:
+            return ["prim", k]
+        if k == "Array":
+            return ["array", self.view(v[0], depth + 1), v[1]]
+        if k == "Struct":
+            return ["struct", [[f["path"], self.view(f["type_def"], depth + 1)] for f in v]]
+        if k == "Enum":
+            return ["enum", self.num_width(v["size"]),
+                    [[x["name"], unle(x["discriminant"]), None if x["type_def"] is None else self.view(x["type_def"], depth + 1)]
+                     for x in v["variants"]]]
+        return ["other", k]
 
     # ---- a generator of values following the IDL -------------------------------------------------
     def gen(self, t, rng, depth=0, last=True):
@@ -638,3 +664,119 @@ def camel(name):
     if not words:
         return ""
     return words[0].lower() + "".join(w[:1].upper() + w[1:].lower() for w in words[1:])
+
+
+# ---- hand-written full layouts of types that use #[type_to_idl(skip)] ------------------------------------
+# layout := "u8" | ... | "pubkey" | {"array": [layout, n]} | {"struct": [[field, layout]..], "skip": k | null}
+#         | {"enum": [[variant, discriminant, null | struct layout]..]}        (harness_c17/pdaprog/src/lib.rs)
+# `#[type_to_idl(skip)]` on field k: "this field and all remaining fields will be skipped in the IDL definition", so the
+# described part of a struct is its fields [0, k) and an IDL-following reader leaves the bytes of fields [k, n) unread.
+MF_PRIM = {"bool": "Bool", "u8": "U8", "i8": "I8", "u16": "U16", "i16": "I16", "u32": "U32", "i32": "I32", "u64": "U64",
+           "i64": "I64", "u128": "U128", "i128": "I128", "pubkey": "Pubkey"}
+
+
+def mf_kind(l):
+    if isinstance(l, str):
+        if l not in MF_PRIM:
+            raise Unsupported("manifest primitive %r" % (l,))
+        return "prim"
+    if isinstance(l, dict):
+        for k in ("array", "struct", "enum"):
+            if k in l:
+                return k
+    raise Unsupported("manifest layout %r" % (l,))
+
+
+def mf_described(l):
+    """(described fields, hidden fields) of a struct layout"""
+    fs, k = l["struct"], l.get("skip")
+    if k is None:
+        return fs, []
+    if not isinstance(k, int) or not 0 <= k < len(fs):
+        raise Unsupported("skip index %r of a struct with %d fields" % (k, len(fs)))
+    return fs[:k], fs[k:]
+
+
+def mf_hides(l):
+    """does a value of this layout end in bytes the IDL does not describe"""
+    k = mf_kind(l)
+    if k == "prim":
+        return False
+    if k == "array":
+        if mf_hides(l["array"][0]):
+            raise Unsupported("array of a type with a hidden suffix")
+        return False
+    if k == "struct":
+        shown, hidden = mf_described(l)
+        for _n, f in shown[:-1]:
+            if mf_hides(f):
+                raise Unsupported("a type with a hidden suffix in front of another described field")
+        for _n, f in hidden:
+            mf_hides(f)
+        return bool(hidden) or (bool(shown) and mf_hides(shown[-1][1]))
+    return any(v[2] is not None and mf_hides(v[2]) for v in l["enum"])
+
+
+def mf_view(l):
+    """what the IDL is expected to say (the normal form of Idl.view)"""
+    k = mf_kind(l)
+    if k == "prim":
+        return ["prim", MF_PRIM[l]]
+    if k == "array":
+        return ["array", mf_view(l["array"][0]), l["array"][1]]
+    if k == "struct":
+        return ["struct", [[n, mf_view(f)] for n, f in mf_described(l)[0]]]
+    return ["enum", 1, [[n, d, None if st is None else mf_view(st)] for n, d, st in l["enum"]]]
+
+
+def mf_shapes(l, variant=False):
+    """which positions of the attribute occur: {struct|variant}-skip-{first|middle|last}"""
+    k = mf_kind(l)
+    out = set()
+    if k == "array":
+        return mf_shapes(l["array"][0])
+    if k == "struct":
+        n, sk = len(l["struct"]), l.get("skip")
+        if sk is not None:
+            out.add("%s-skip-%s" % ("variant" if variant else "struct", "first" if sk == 0 else "last" if sk == n - 1 else "middle"))
+        for _n, f in l["struct"]:
+            out |= mf_shapes(f)
+    elif k == "enum":
+        for _n, _d, st in l["enum"]:
+            if st is not None:
+                out |= mf_shapes(st, True)
+    return out
+
+
+def mf_gen(l, rng):
+    """a random value of the FULL layout: {"bytes": every byte the runtime (de)serialises, "leaves": every leaf value in
+    Debug order, "shown": how many of the bytes an IDL-following reader is expected to consume, "shown_leaves": the values
+    it is expected to read}"""
+    k = mf_kind(l)
+    if k == "prim":
+        K = MF_PRIM[l]
+        n = PRIM_SIZE[K]
+        bs = [rng.below(2)] if K == "Bool" else rng.choice([[0] * n, [255] * n, le(rng.below(256), n), rng.bytes(n), rng.bytes(n)])
+        lv = [Idl.leaf(K, bs)]
+        return {"bytes": list(bs), "leaves": lv, "shown": n, "shown_leaves": lv}
+    if k == "array":
+        parts = [mf_gen(l["array"][0], rng) for _ in range(l["array"][1])]
+        bs = [b for q in parts for b in q["bytes"]]
+        lv = [x for q in parts for x in q["leaves"]]
+        return {"bytes": bs, "leaves": lv, "shown": len(bs), "shown_leaves": lv}
+    if k == "struct":
+        shown, _hidden = mf_described(l)
+        parts = [mf_gen(f, rng) for _n, f in l["struct"]]
+        out = {"bytes": [b for q in parts for b in q["bytes"]], "leaves": [x for q in parts for x in q["leaves"]],
+               "shown": 0, "shown_leaves": []}
+        for i in range(len(shown)):
+            last = i == len(shown) - 1
+            out["shown"] += parts[i]["shown"] if last else len(parts[i]["bytes"])
+            out["shown_leaves"] += parts[i]["shown_leaves"] if last else parts[i]["leaves"]
+        return out
+    n, d, st = rng.choice(l["enum"])
+    if st is None:
+        lv = [("ident", n)]
+        return {"bytes": [d], "leaves": lv, "shown": 1, "shown_leaves": lv}
+    q = mf_gen(st, rng)
+    return {"bytes": [d] + q["bytes"], "leaves": q["leaves"], "shown": 1 + q["shown"], "shown_leaves": q["shown_leaves"]}
